@@ -364,6 +364,59 @@ func (fr *frame) lookupIte(instr *ssa.Lookup, m *omap, idx value) (value, bool) 
 	return v, true
 }
 
+// indexIte reads x[idx] for a symbolic idx from a string or an array of
+// scalars as an if-then-else chain (after the forking bounds check), so
+// that table look-ups such as hex[b>>4] do not fork per element.
+func (fr *frame) indexIte(x, idx value) (value, bool) {
+	var cells []value
+	switch x := x.(type) {
+	case string:
+		cells = strCells(x)
+	case symstr:
+		cells = x.b
+	case array:
+		cells = x
+	default:
+		return nil, false
+	}
+	if len(cells) == 0 || len(cells) > 256 {
+		return nil, false
+	}
+	var kind types.BasicKind
+	for j, c := range cells {
+		var k types.BasicKind
+		if s, ok := c.(sv); ok {
+			k = s.K
+		} else if kk, _, ok := kindOf(c); ok {
+			k = kk
+		} else {
+			return nil, false
+		}
+		if j > 0 && k != kind {
+			return nil, false
+		}
+		kind = k
+	}
+	k := toIntV(idx)
+	inr := vAnd(binop(token.LEQ, nil, int(0), k), binop(token.LSS, nil, k, int(len(cells))))
+	if !fr.i.truth(inr) {
+		panic(targetPanic{rtErr("index out of range")})
+	}
+	ks, ok := k.(sv)
+	if !ok {
+		return cells[k.(int)], true
+	}
+	tt := ks.T.tt
+	w, _ := kindInfo(kind)
+	acc, _ := lift(tt, cells[len(cells)-1])
+	_ = w
+	for j := len(cells) - 2; j >= 0; j-- {
+		cj, _ := lift(tt, cells[j])
+		acc = tt.Ite(tt.Eq(ks.T, tt.Const(64, uint64(j))), cj, acc)
+	}
+	return norm(acc, kind), true
+}
+
 // rtErr builds a runtime.Error-like value for target-level run-time panics.
 func rtErr(msg string) value {
 	return iface{t: theRuntimeErrorString, v: msg}
@@ -422,6 +475,18 @@ func (fr *frame) lookup(instr *ssa.Lookup, x, idx value) value {
 // numeric datatypes and strings.  Both operands must have identical
 // dynamic type.
 func binop(op token.Token, t types.Type, x, y value) value {
+	if fx, ok := x.(sfloat); ok {
+		if c, ok := y.(float64); ok && op == token.MUL {
+			return sfloatMul(fx, c)
+		}
+		panic(engineError{"not encodable: floating-point operation on a symbolic value"})
+	}
+	if fy, ok := y.(sfloat); ok {
+		if c, ok := x.(float64); ok && op == token.MUL {
+			return sfloatMul(fy, c)
+		}
+		panic(engineError{"not encodable: floating-point operation on a symbolic value"})
+	}
 	if isSym(x) || isSym(y) {
 		return symBinopTok(op, x, y)
 	}
@@ -1219,6 +1284,17 @@ func (fr *frame) rangeIter(x value, t types.Type) iter {
 		if x != nil {
 			it.ents = append(it.ents, x.ents...)
 		}
+		if fr.i.path != nil && fr.i.path.permuteMaps && len(it.ents) > 1 && len(it.ents) <= 4 {
+			// Go leaves the iteration order unspecified: explore every order
+			rest := it.ents
+			var perm []*ment
+			for len(rest) > 1 {
+				k := fr.i.chooseInternal(len(rest))
+				perm = append(perm, rest[k])
+				rest = append(append([]*ment{}, rest[:k]...), rest[k+1:]...)
+			}
+			it.ents = append(perm, rest...)
+		}
 		return it
 	case string:
 		return &stringIter{Reader: strings.NewReader(x)}
@@ -1322,6 +1398,13 @@ func conv(t_dst, t_src types.Type, x value) value {
 	// widest representation (int64, uint64, float64, complex128,
 	// or string), then we convert it to the desired type.
 
+	if fx, ok := x.(sfloat); ok {
+		if d, ok := ut_dst.(*types.Basic); ok && d.Info()&types.IsInteger != 0 {
+			w, _ := kindInfo(d.Kind())
+			return norm(fx.T.tt.Resize(fx.T, w, false), d.Kind())
+		}
+		panic(engineError{"not encodable: conversion of a symbolic float"})
+	}
 	if sx, ok := x.(sv); ok {
 		if d, ok := ut_dst.(*types.Basic); ok {
 			return symConv(d.Kind(), sx)
